@@ -233,7 +233,13 @@ var l2MaccPerms = map[string][]string{
 	authtypes.FeeCollectorName: nil,
 	opchildtypes.ModuleName:    {authtypes.Burner, authtypes.Minter},
 	authtypes.Minter:           {authtypes.Minter, authtypes.Burner},
+	LazyModule:                 nil,
 }
+
+// LazyModule is a module whose account is not touched at genesis: its address is
+// blocked for transfers but has no account in state until something creates one
+// (the usual situation of a module account before its first use).
+const LazyModule = "reserve"
 
 func NewL2(db dbm.DB, gen *L2Genesis, opts L2Options, plans []PlanReg) *L2 {
 	enc := MakeEncoding()
